@@ -219,6 +219,22 @@ Definition violates (k : nkey) (v : pynum) : bool :=
 Definition numeric_key (k : nkey) : bool :=
   match k with KExMax (PBool _) | KExMin (PBool _) => false | _ => true end.
 
+(* cover_schema_iter, keys anyOf / oneOf (coverage.py:461-466): the negative values of every
+   branch in turn, the seen set shared; the other branches are not consulted *)
+Definition yielded_values (items : list negitem) : list pynum :=
+  flat_map (fun it => match fst (fst it) with Some v => [v] | None => [] end) items.
+Fixpoint anyof_negative_numbers (branches : list (list nkey)) (seen : list pynum) : list (nat * negitem) :=
+  match branches with
+  | [] => []
+  | b :: r =>
+    let items := negative_numbers b seen in
+    map (fun it => (O, it)) items
+    ++ map (fun x => (S (fst x), snd x)) (anyof_negative_numbers r (yielded_values items ++ seen))
+  end.
+(* v satisfies every numeric keyword of a branch *)
+Definition conforms (keys : list nkey) (v : pynum) : bool := forallb (fun k => negb (violates k v)) keys.
+
+
 (* ====================================================================== *)
 (* Part 2: string lengths and array sizes                                  *)
 (* ====================================================================== *)
